@@ -267,6 +267,16 @@ def T(text, kind):
     return {"t": text, "k": kind}
 
 
+def group_depth(e):
+    """deepest nesting of Grouped nodes in an AST"""
+    if isinstance(e, list):
+        return max([group_depth(x) for x in e] or [0])
+    if not isinstance(e, dict):
+        return 0
+    d = max([group_depth(v) for v in e.values()] or [0])
+    return d + 1 if e.get("e") == "grp" else d
+
+
 class Emitter:
     """expr()/stmt() return (tokens, ast') where ast' is the input AST plus the
     Grouped nodes of the redundant parentheses that were written."""
@@ -278,7 +288,9 @@ class Emitter:
         return T(w, "w")
 
     def maybe_group(self, toks, ast, allowed=True):
-        if allowed and self.st.coin(self.st.parens):
+        # the parser's time grows about 4x per level of nested parentheses (8 levels ~ 1 s in a debug
+        # build): keep redundant parentheses shallow
+        if allowed and self.st.coin(self.st.parens) and group_depth(ast) < 3:
             return [T("(", "p")] + toks + [T(")", "p")], {"e": "grp", "x": ast}
         return toks, ast
 
@@ -410,7 +422,7 @@ class Emitter:
                 t, a = self.expr(x)
                 toks += [P(",")] + t
                 d.append(a)
-            if self.st.coin(self.st.trail):
+            if d and self.st.coin(self.st.trail):      # `select (v,)` without a default is not in the grammar
                 toks.append(P(","))
             ft, fa = self.fields(e["flds"])
             return toks + [P(")"), P("=>")] + ft, {"e": k, "x": xa, "dflt": d, "flds": fa}
